@@ -3,6 +3,7 @@
 # passes /repo's own tests is run against the quick checks, cheapest first, until one reports a violation.
 # One line per mutant in .build/mutsweep/results.tsv:  n <TAB> verdict <TAB> description
 export GOFLAGS=-mod=mod GOPROXY=off GOSUMDB=off GOTOOLCHAIN=local
+export VERIF_EVIDENCE_DIR=/verif/.build/evidence-of-broken-trees
 D=/verif/.build/mutsweep
 ORDER="C19 C07 C17 C08 C03 C18 C02 C05 C09 C04 C06 C16 C15 C01 C20 C11 C13 C14 C12 C10"
 first=${1:-1}; last=${2:-99999}
